@@ -816,14 +816,41 @@ def front_parse_actions(R):
         l2, r2 = ag.E("l"), ag.E("r")
         n2 = act("p_assignment_expression", [l2, op.Operation[o], r2])
         R.check(f"FRONT.parse[assignment_expression,{sp}]", P + "p_assignment_expression", isinstance(n2, a.AssignmentExpression) and n2.GetLeft() is l2 and n2.GetRight() is r2 and n2.GetOperation() == op.Operation[o], detail="assignment roles")
+    # binary expressions: every alternative of every production whose left-hand side is binary_expression (read from the docstrings)
     from .types_c import OPSTR
-    for oname, sp in OPSTR.items():
-        l2, r2 = ag.E("l"), ag.E("r")
-        n2 = act("p_binary_expression", [l2, sp, r2])
-        ok = type(n2) is a.BinaryExpression and n2.GetOperation() == op.Operation[oname] and n2.GetLeft() is l2 and n2.GetRight() is r2
-        n3 = act("p_binary_expression", ["(", l2, sp, r2, ")"])
-        ok3 = type(n3) is a.BinaryExpression and n3.GetOperation() == op.Operation[oname] and n3.GetLeft() is l2 and n3.GetRight() is r2
-        R.check(f"FRONT.parse[binary_expression,{oname}]", P + "p_binary_expression", ok and ok3 and act("p_bin_op", [sp]) == sp, detail=f"{sp}: plain alternative ok={ok}, parenthesised ok={ok3}")
+    import nsl.parser as PM
+    tokspell = {"LT": "<", "GT": ">", "PLUS": "+", "MINUS": "-", "TIMES": "*", "DIVIDE": "/", "MOD": "%", "GE": ">=", "LE": "<=", "EQ": "==", "NE": "!=", "LAND": "&&", "LOR": "||"}
+    spell2op = {v: k for k, v in OPSTR.items()}
+    seen_ops = set()
+    for mname in sorted(dir(PM.NslParser)):
+        meth = getattr(PM.NslParser, mname)
+        doc = getattr(meth, "__doc__", None) or ""
+        if not mname.startswith("p_") or not doc.strip().startswith("binary_expression"):
+            continue
+        alts = [x.strip().split() for x in doc.split(":", 1)[1].split("|")]
+        for alt in alts:
+            opsyms = [x for x in alt if x in tokspell or x == "bin_op"]
+            spellings = list(tokspell.values()) if "bin_op" in alt else [tokspell[x] for x in opsyms] or [None]
+            for sp in spellings:
+                vals, nodes = [], []
+                for sym in alt:
+                    if sym in tokspell or sym == "bin_op":
+                        vals.append(sp)
+                    elif sym.startswith("'"):
+                        vals.append(sym.strip("'"))
+                    else:
+                        n_ = ag.E(f"n{len(nodes)}")
+                        nodes.append(n_)
+                        vals.append(n_)
+                res = act(mname, vals)
+                lab = f"{mname}:{' '.join(alt)}" + (f",{sp}" if sp else "")
+                if sp is None:
+                    R.check(f"FRONT.parse[{lab}]", P + mname, len(nodes) == 1 and res is nodes[0], detail="a parenthesised expression must be the inner expression itself")
+                else:
+                    seen_ops.add(sp)
+                    ok = type(res) is a.BinaryExpression and res.GetOperation() == op.Operation[spell2op[sp]] and len(nodes) == 2 and res.GetLeft() is nodes[0] and res.GetRight() is nodes[1]
+                    R.check(f"FRONT.parse[{lab}]", P + mname, ok, detail=f"expected BinaryExpression({spell2op[sp]}, left, right) with the operands in source order, got {res}")
+    R.check("FRONT.parse[binary_expression.all-operators]", P + "p_binary_expression", seen_ops == set(tokspell.values()), detail=f"operators with a production: {sorted(seen_ops)}")
     r = act("p_var_decl_1", [ty.Integer(), "name"])
     R.check("FRONT.parse[var_decl_1]", P + "p_var_decl_1", isinstance(r, a.VariableDeclaration) and r.GetName() == "name" and isinstance(r.GetType(), ty.Integer) and not r.HasInitializerExpression(), detail="decl")
     r = act("p_var_decl_2", [ty.Float(), "name", "=", e])
